@@ -752,6 +752,8 @@ module N :
   val eq_dec : n -> n -> bool
  end
 
+val tl : 'a1 list -> 'a1 list
+
 val nth : nat -> 'a1 list -> 'a1 -> 'a1
 
 val rev1 : 'a1 list -> 'a1 list
@@ -1885,6 +1887,16 @@ val page_readdirplus :
   ('a1 -> n) -> ('a1 -> n) -> 'a1 dir -> nat -> n -> n -> ((nat * 'a1)
   list * bool) * nat
 
+val slot_eqb : (name * n) -> (name * n) -> bool
+
+val has_entry : (name * n) option list -> (name * n) -> bool
+
+val stays :
+  (name * n) option list -> (name * n) option list -> (name * n) option list
+  -> bool
+
+val step_ok_b : (name * n) option list -> (name * n) option list -> bool
+
 type oattrs = { oa_ftype : n; oa_size : n; oa_fileid : n; oa_atime : 
                 (n * n); oa_mtime : (n * n); oa_nlink : n }
 
@@ -1980,6 +1992,13 @@ val model_pageplus :
 
 val readdir_matches_model :
   n -> disk -> n -> n -> n -> odirent list -> bool -> bool
+
+val dir_slot_table :
+  n -> disk -> abs_result -> (n * (n * (name * n) option list)) list
+
+val slots_moved :
+  (n * (n * (name * n) option list)) list -> (n * (n * (name * n) option
+  list)) list -> n list
 
 val readdirplus_matches_model :
   n -> disk -> n -> n -> n -> n -> odirent list -> bool -> bool
